@@ -838,6 +838,32 @@ def run(ctx):
     if not n16d:
         ctx.unknown('R16ad', w, None, 'no constant bracket table found in the legacy walker code', construct='bracket tables')
 
+    # ---- R16ae: the legacy methods start reading exactly at the position they are given
+    ctx.rule('R16ae', 'a legacy method that delegates to parse_content() hands it a token reader positioned at the caller\'s `pos` '
+                      'and does not move that reader itself (skip_space_chars / next_chars / next_token / move_* in the method '
+                      'body, nested handlers aside) before the parser runs: what stands at `pos` -- white space included -- is '
+                      'seen by the parser exactly as the pylatexenc-3 call with a reader at `pos` sees it '
+                      '(get_latex_environment at a blank in front of \\begin must fail like LatexSingleNodeParser does)', 1)
+    ADV16 = ('skip_space_chars', 'next_chars', 'next_token', 'move_to_pos_chars', 'move_past_token', 'move_to_token',
+             'peek_space_chars')
+    n16e = 0
+    for q_, f_ in sorted(w.functions.items()):
+        if not q_.startswith('_pyltxenc2_LatexWalker_') or '.' in q_:
+            continue
+        pcs_ = [c_ for c_ in iter_own(f_) if isinstance(c_, ast.Call) and call_name(c_) == 'parse_content']
+        if not pcs_:
+            continue
+        n16e += 1
+        adv_ = [c_ for c_ in iter_own(f_) if isinstance(c_, ast.Call) and call_name(c_) in ADV16
+                and min(p_.lineno for p_ in pcs_) > c_.lineno]
+        ctx.decide('R16ae', not adv_, w, adv_[0] if adv_ else f_, '%s: the reader is not moved before parse_content' % q_,
+                   '%s calls %s before handing the reader to parse_content(): the legacy call then starts reading somewhere '
+                   'else than at the position it was given, and succeeds (or answers with other positions) where the '
+                   'pylatexenc-3 parser with a reader at that position raises or returns a white-space node'
+                   % (q_, short(adv_[0], 50) if adv_ else ''), construct='%s: reader moved before parse_content' % q_)
+    if not n16e:
+        ctx.unknown('R16ae', w, None, 'no legacy method calling parse_content found', construct='legacy reader position')
+
     # ---- R16ac: a test on the current position is made where the position is current
     ctx.rule('R16ac', 'the legacy argument parsers compute no test of the reading position (is there white space at p, are we at '
                       'the end) once in front of the argument loop and use it inside the loop, where p has moved: '
